@@ -207,8 +207,12 @@ def strat_shard(tier):
     if depth >= 3:
       ks = [min(k, 4) for k in ks]
     splits = sorted(draw(st.lists(st.integers(0, n), max_size=4)))
+    ik = draw(st.sampled_from(['int', 'int', 'int64', 'int32', 'uint8_index']))
+    if ik == 'uint8_index' and draw(st.booleans()):
+      n, ks = draw(st.integers(256, 520)), ks[:1]      # positions beyond what the index type itself could hold
+      splits = [min(c, n) for c in splits]
     return {'kind': kind, 'n': n, 'ks': ks, 'offsets': n <= 60 and depth <= 2, 'splits': splits,
-            'pickle': draw(st.booleans()), 'index_kind': draw(st.sampled_from(['int', 'int', 'int64', 'int32', 'uint8_index']))}
+            'pickle': draw(st.booleans()), 'index_kind': ik}
   return s()
 
 
